@@ -229,6 +229,27 @@ def run(ctx):
                      constants={"MaxObjs": 99, "Export": False}, extra_files={"fixture.json": fjson})
         if ok:
             ctx.sample({"fixture": fx.name, "ops": _ops(ok[0])[:5]})
+    # the observed / unobserved views split the screen by its CURRENT mask: also after the mask changed (set_observed between two calls)
+    for fx in fxs[:3]:
+        scr = fx.screen()
+        hist = []
+        for step in range(4):
+            st_u, u = outcome(scr.subset_unobserved)
+            st_o, o = outcome(scr.subset_observed)
+            m = np.asarray(scr.observation_mask, dtype=bool)
+            ok_u = st_u == "ok" and ((u is None and m.all()) or (u is not None and np.array_equal(np.asarray(u.selection_vector, dtype=bool), ~m)))
+            ok_o = st_o == "ok" and ((o is None and not m.any()) or (o is not None and np.array_equal(np.asarray(o.selection_vector, dtype=bool), m)))
+            ctx.evaluations += 1
+            if not (ok_u and ok_o):
+                ctx.violation("fixture %s: after %s the observed / unobserved views do not split the screen by its mask %s" % (fx.name, hist or "construction", m.astype(int).tolist()),
+                              {"kind": "mask-history", "fixture": fx.name, "history": hist})
+                break
+            un = sorted(set(int(x) for x in scr.plate_ids[~m]))
+            if not un:
+                break
+            sel = scr.plate_ids == un[0]
+            outcome(scr.set_observed, sel, np.full(int(sel.sum()), 0.5))
+            hist.append("set_observed(plate %d)" % un[0])
     missing = [a for a in ACTIONS if a not in seen]
     if missing:
         raise tlc.TLCError("vacuity guard: Views actions never taken: %s" % missing)
